@@ -50,6 +50,13 @@ class StatModel(Model):
 
     def begin_round(self, time, sim_round, step):
         k = self.k
+        if k == 0:
+            # a property whose values are numpy scalars (set once through the public set_property, never reassigned)
+            import numpy as np
+            for ag in self.agents:
+                if ag.agent_type == "a":
+                    ag.set_property("z", {"type": "Double", "value": np.float64(0.5 * (ag.id % 5) - 0.75)})
+                    ag.set_property("w", {"type": "Integer", "value": np.int64(ag.id % 4 - 1)})
         if self.churn == ("begin", k):
             self._churn()
         for ag in self.agents:
@@ -188,6 +195,23 @@ def run_twice(pop, how):
     if v:
         viol.append(("rerun-%s/statistics/%s" % (how, v[0]), v[1]))
     return viol, 1
+
+
+def run_big(n):
+    """size ladder: n agents of one type"""
+    import copy
+    m = StatModel(starttime=0, stoptime=1, dt=1, name="c13b", scheduler=SimultaneousScheduler(), data_collector=DataCollector())
+    m.instantiate_model()
+    m.plan = [(i % len(PATTERNS), XS[i % len(XS)], YS[i % len(YS)]) for i in range(7)]
+    m.create_agents({"name": "a", "count": n, "properties": copy.deepcopy(A_PROPS)})
+    m.create_agent("b", {"kind": {"type": "String", "value": "b"}, "x": {"type": "Integer", "value": 0}})
+    try:
+        m.run(show_progress_widget=False)
+    except Exception as e:
+        import traceback
+        return [("big/raises/%s" % type(e).__name__, traceback.format_exc()[-300:])], 0
+    v = cmp_stats(m.statistics(), brute(m.snap))
+    return ([("big-%d/statistics/%s" % (n, v[0]), v[1])] if v else []), 1
 
 
 def run_pair(pop1, pop2):
@@ -406,6 +430,9 @@ def populations(tier):
         for k in (0, 1, 2):
             for c in [(small[0],), (small[1], small[4]), (small[2], small[7], small[5])] + ([(a, b) for a in small[:4] for b in small[4:]] if tier == "thorough" else []):
                 out.append((c, "churn:%s:%d" % (where, k)))
+    # size ladder
+    for n in (50, 400, 1100, 2300):
+        out.append((((0, 0, 0.0),), "big:%d" % n))
     # the same model simulated twice (every time collected a second time)
     for how in ("run", "steps"):
         for c in [(small[0],), (small[1], small[4]), (small[2], small[7], small[5])]:
@@ -428,6 +455,8 @@ def _work(part):
     for pop, dt in part:
         if dt == "pair":
             out.append(run_pair(list(pop[0]), list(pop[1])))
+        elif isinstance(dt, str) and dt.startswith("big:"):
+            out.append(run_big(int(dt.split(":")[1])))
         elif isinstance(dt, str) and dt.startswith("twice:"):
             out.append(run_twice(list(pop), dt.split(":")[1]))
         elif isinstance(dt, str):
@@ -473,6 +502,9 @@ def replay(case):
         return viol or None
     dt = case["dt"]
     churn = None
+    if isinstance(dt, str) and dt.startswith("big:"):
+        viol, _ = run_big(int(dt.split(":")[1]))
+        return viol or None
     if isinstance(dt, str) and dt.startswith("twice:"):
         viol, _ = run_twice([tuple(a) for a in case["population"]], dt.split(":")[1])
         return viol or None
